@@ -25,7 +25,8 @@ def cfgNow : Cfg :=
 theorem model_shape_facts :
     Generated.C10.workerSavesAfterWrite = true ∧ Generated.C10.writePublishesAfterLoop = true ∧
     Generated.C10.startWorkerCondition = true ∧ Generated.C10.saveStatePersists = true ∧
-    Generated.C10.deleteCancelsWorkers = true ∧ Generated.C10.provenanceFromSourceTags = true := by decide
+    Generated.C10.deleteCancelsWorkers = true ∧ Generated.C10.provenanceFromSourceTags = true ∧
+    Generated.C10.saveStateWritesFileUnderLock = true := by decide
 
 /-- **Copy invariant** (all interleavings of writes, notifications in any order, worker steps, creation, deletion,
 shutdown and restart; any number of sources, batch sizes and steps): the events of the pipe partition that were copied
